@@ -113,6 +113,15 @@ CHECKS = {
          "tractable (stated per harness); the inverse direction note_array_to_score is not covered. Models: interp1d, PPoly, defaultdict, np.",
     technique="symbolic execution of real code (CrossHair/z3) vs row oracle",
     ref="DESIGN.md §2 C05"),
+ "C15": dict(
+    text="Symbolic execution of merge_parts on two parts with different divisions (symbolic onsets, voices, staves incl. a missing staff; "
+         "voice / staff / auto modes; single part, list, group) against the statement: every element at t*lcm/q, voice (staff) classes of "
+         "different inputs disjoint and classes within an input preserved, structural elements from the first part only, merged timeline "
+         "consistent with the lcm as quarter duration. Path trees exhausted per instance.",
+    note="The equality with the score-level note array is evaluated on concrete replays only (cost). Known finding KF-C15-auto-keyerror carves "
+         "out reassign='auto' inputs whose element staves/voices are not used by pitched notes. Two parts; variables not free in an instance are pinned.",
+    technique="symbolic execution of real code (CrossHair/z3) vs rescaling/partition oracle",
+    ref="DESIGN.md §2 C15"),
 }
 NOT_APPLICABLE = {
  "C18": "float32/transcendental codec chain (log2, 2**x, mean/std, symbolic/symbolic division) over ~600 lines of vectorised numpy: non-linear with transcendental terms, z3 answers unknown; no sound bounded encoding within reach (DESIGN.md §2 C18)",
